@@ -72,7 +72,7 @@ def is_enf_origin(ctx):
 
 
 def run(chk, prog):
-    chk.rules_live = ["R1", "R2", "R3", "R4", "R5"]
+    chk.rules_live = ["R1", "R2", "R3", "R4", "R5", "R6"]
     chk.explanation = (
         "Must-pass-through rules over MIR: in load_root/load_timestamp/load_snapshot/load_targets "
         "the Ok return (and the datastore write) is unreachable once the 'enforcement is not Safe' "
@@ -149,6 +149,7 @@ def run(chk, prog):
     r3_read_target(chk, prog)
     r4_earliest(chk, prog)
     r5_system_time(chk, prog)
+    r6_default_is_on(chk, prog)
 
 
 def _safe_edges(ctx, U):
@@ -390,3 +391,51 @@ def r5_system_time(chk, prog):
     chk.require(callers == {SYSTEM_TIME}, "R5", "tough", "who-may-call-now",
                 "the wall clock is read in %s; only Datastore::system_time (which guards against a clock "
                 "stepping backwards) may" % sorted(callers))
+
+
+def r6_default_is_on(chk, prog):
+    """'enforcement on (the default)': ExpirationEnforcement::default() is Safe, and a loader without an
+    explicit setting gets that default"""
+    D = "<tough::ExpirationEnforcement as core::default::Default>::default"
+    ctx = ctx_of(prog, D)
+    if ctx is None:
+        # #[derive(Default)] with #[default] on a variant has no user body: the derive's body is in the facts too
+        chk.anchor_missing("R6", D)
+        return
+    chk.analysed_body(ctx.body)
+    ret = ctx.origins.of_local(0)
+    chk.require(bool(ret) and all(o.kind == "agg" and str(o.key[2]) == ENF + "::Safe" for o in ret), "R6", ctx.fn,
+                "default-is-safe", "ExpirationEnforcement::default() is %s: a client that does not choose gets no "
+                "freeze protection" % sorted(map(repr, ret)))
+    lc = async_body(prog, "tough::Repository::load")
+    if lc is None:
+        chk.anchor_missing("R6", "tough::Repository::load")
+        return
+    chk.analysed_body(lc.body)
+    n = 0
+    for fn in SITES:
+        for bb, t in lc.calls(fn):
+            n += 1
+            a = t.args[-1]
+            og = lc.origins.of_operand(a)
+            good = bool(og)
+            for o in og:
+                if o.kind in ("upvar", "param") and o.fields[-1:] == ("expiration_enforcement",):
+                    continue
+                if o.kind == "agg" and str(o.key[2]) == ENF + "::Safe":
+                    continue
+                if is_call(o, D, "core::default::Default::default"):
+                    continue
+                good = False
+            # how the Option is unwrapped
+            un = [tt for _, tt in lc.calls("core::option::Option::unwrap_or_default", "core::option::Option::unwrap_or",
+                                           "core::option::Option::unwrap_or_else")
+                  if any(x.fields[-1:] == ("expiration_enforcement",) for x in lc.origins.of_operand(tt.args[0]))]
+            for tt in un:
+                if tt.is_call_to("core::option::Option::unwrap_or"):
+                    dflt = lc.origins.of_operand(tt.args[1])
+                    good = good and bool(dflt) and all(x.kind == "agg" and str(x.key[2]) == ENF + "::Safe" or is_call(x, D) for x in dflt)
+            chk.require(good, "R6", lc.fn, "unset-means-default:" + fn.split("::")[-1],
+                        "the enforcement setting handed to %s does not come from the loader's setting with the Safe "
+                        "default: %s" % (fn, sorted(map(repr, og))), lc.site(bb))
+    chk.floor("R6", n, 4, "loader calls in Repository::load")
